@@ -7,6 +7,9 @@
      pkg/filesystem/virtual/in_memory_prepopulated_directory.go (getContents and
         the operations that call it)
      pkg/builder/virtual_build_directory.go (MergeDirectoryContents)
+     pkg/filesystem/virtual/stateless_handle_allocating_cas_file_factory.go
+        (casFileID.WriteTo), handle_allocator.go (ByteSliceID.WriteTo),
+        encoding/binary.PutUvarint, bb-storage Digest.GetKey(KeyWithInstance)
      bb-storage pkg/filesystem/path.NewComponent, pkg/digest.Function.NewDigest
 
    The file system is a heap of directory objects and leaf objects, both
@@ -17,6 +20,7 @@
    maintain them): the digest a directory object was created from, and
    whether its entry list was never changed by a local modification. *)
 From Coq Require Export List String Ascii Bool ZArith Arith.
+From Coq Require Import DecimalString.
 Export ListNotations.
 Open Scope string_scope.
 Open Scope nat_scope.
@@ -775,3 +779,91 @@ Fixpoint reveal (k : nat) (c : cas) (s : state) (i : nat) : option tree :=
       end
     end
   end.
+
+(* ---- The identity handed to the stateless handle allocator ------------------ *)
+
+(* stateless_handle_allocating_cas_file_factory.go: every CAS backed file is
+   created through StatelessHandleAllocator.New(&casFileID{blobDigest,
+   isExecutable}); handle allocators derive the inode number / file handle
+   from the bytes casFileID.WriteTo writes, and the NFSv4 one returns the
+   leaf it already has for these bytes.  Bytes are numbers here.
+
+   binary.PutUvarint into a [binary.MaxVarintLen64]byte buffer: seven bits
+   per byte, least significant group first, bit 7 set on every byte but the
+   last; ten bytes hold every uint64 (the fuel). *)
+Fixpoint uvarint_f (fuel : nat) (x : N) : list N :=
+  match fuel with
+  | O => [x]
+  | S f => if (x <? 128)%N then [x]
+           else ((x mod 128) + 128)%N :: uvarint_f f (x / 128)%N
+  end.
+
+Definition uvarint (x : N) : list N := uvarint_f 9 x.
+
+Fixpoint bytes_of (s : string) : list N :=
+  match s with
+  | EmptyString => []
+  | String c r => N_of_ascii c :: bytes_of r
+  end.
+
+(* ByteSliceID.WriteTo: the length of the slice as a uvarint, then the slice. *)
+Definition byte_slice_id (data : string) : list N :=
+  uvarint (N.of_nat (String.length data)) ++ bytes_of data.
+
+(* casFileID.WriteTo: ByteSliceID(blobDigest.GetKey(KeyWithInstance)), then
+   one byte for isExecutable. *)
+Definition file_identity (key : string) (executable : bool) : list N :=
+  byte_slice_id key ++ [if executable then 1%N else 0%N].
+
+(* strconv / fmt "%d" of a size that passed NewDigest (never negative). *)
+Definition dec (z : Z) : string := NilEmpty.string_of_uint (N.to_uint (Z.to_N z)).
+
+(* Digest.GetKey(KeyWithInstance) = the digest's value string:
+   "<digest function enum>-<hash>-<size>-<instance name>". *)
+Definition digest_key (fn inst : string) (d : digest) : string :=
+  fn ++ "-" ++ fst d ++ "-" ++ dec (snd d) ++ "-" ++ inst.
+
+Definition leaf_identity (fn inst : string) (k : leafkind) : option (list N) :=
+  match k with
+  | KCas d x => Some (file_identity (digest_key fn inst d) x)
+  | _ => None
+  end.
+
+(* The leaves that were created through the stateless allocator, with what
+   it was given, in creation order. *)
+Fixpoint leaf_ids (fn inst : string) (i : nat) (ls : list leafobj) : list (nat * list N) :=
+  match ls with
+  | [] => []
+  | lf :: r =>
+    match leaf_identity fn inst (l_kind lf) with
+    | Some id => (i, id) :: leaf_ids fn inst (S i) r
+    | None => leaf_ids fn inst (S i) r
+    end
+  end.
+
+Fixpoint bytes_eqb (a b : list N) : bool :=
+  match a, b with
+  | [], [] => true
+  | x :: a', y :: b' => N.eqb x y && bytes_eqb a' b'
+  | _, _ => false
+  end.
+
+Fixpoint index_of (x : list N) (tab : list (list N)) : nat :=
+  match tab with
+  | [] => O
+  | y :: r => if bytes_eqb y x then O else S (index_of x r)
+  end.
+
+Definition add_new (tab : list (list N)) (x : list N) : list (list N) :=
+  if existsb (bytes_eqb x) tab then tab else tab ++ [x].
+
+(* The distinct identities in order of first appearance; a leaf's token is
+   the index of its identity (for the NFSv4 allocator: the inode number
+   the identity hashes to; equal token = one file for the kernel). *)
+Definition id_table (ids : list (nat * list N)) : list (list N) :=
+  fold_left add_new (map snd ids) [].
+
+Definition model_idents (fn inst : string) (s : state) : list (nat * N) * list (list N) :=
+  let ids := leaf_ids fn inst 0 (st_leaves s) in
+  let tab := id_table ids in
+  (map (fun p => (fst p, N.of_nat (index_of (snd p) tab))) ids, tab).
